@@ -448,10 +448,10 @@ class Table(Vector):
 				
 				# Replace the column at validated index
 				# (store a snapshot: the table must not share the donor vector)
+				# (Vector(tuple) keeps the caller's tuple: copy in every case)
 				if not isinstance(value, Vector):
 					value = Vector(value)
-				else:
-					value = value.copy()
+				value = value.copy()
 				
 				if self._underlying and len(value) != self._length:
 					raise ValueError(
@@ -474,10 +474,10 @@ class Table(Vector):
 			if col_idx is not None:
 				# Replace the column in _underlying
 				# (store a snapshot: the table must not share the donor vector)
+				# (Vector(tuple) keeps the caller's tuple: copy in every case)
 				if not isinstance(value, Vector):
 					value = Vector(value)
-				else:
-					value = value.copy()
+				value = value.copy()
 				
 				# Validate length
 				if self._underlying and len(value) != self._length:
